@@ -9,7 +9,8 @@ treats handler tasks, and of the K-slot schedule that decides *when* each reques
   `Variant.pinned` lets the `ProtocolError` of an unencodable result escape.
 * `serve` folds that over any number of in-flight items in any completion order, with the
   message loop's liveness (a handler task that *raises* makes `task.result()` re-raise inside
-  `process_messages`: nothing later is answered) and with the effect of a reply-and-disconnect
+  `process_messages`: nothing later is answered, and the transport protocol aborts the
+  connection - repair F34) and with the effect of a reply-and-disconnect
   (once `close()` ran, the tasks still in flight are cancelled and nothing more is written:
   later completions are cut off).  Members of a request batch are answered by one batch
   response, emitted when `len(parts) == count`.
@@ -142,10 +143,11 @@ def throttled (v : Variant) (cfg : Cfg) (o : Outcome) (k : Kind) : Step :=
 
 /-- what the facts extractor observes when it runs the real session on one item: the reply in
 canonical form (is a result?, value id / error code, message id - 0 for the library's own
-texts), the bumps, whether the connection was closed, the hook, and whether the session stopped
-serving without closing (an exception left `_throttled_request`) -/
+texts), the bumps, whether the connection was closed, the hook, and whether the transport was
+aborted (an exception left `_throttled_request`: message processing ends abnormally and
+`RSTransport.process_messages` aborts the connection - repair F34) -/
 structure Obs where
-  escaped : Bool
+  aborted : Bool
   reply : Option (Bool × Int × Nat)
   errors : Nat
   cost : Nat
@@ -158,8 +160,8 @@ def canonReply : Reply → Bool × Int × Nat
   | .error c m => (false, c, if 1000000 ≤ m then 0 else m)
 
 def obsOf (st : Step) : Obs :=
-  { escaped := st.escapes, reply := st.reply.map canonReply, errors := st.errors, cost := st.cost,
-    closed := st.close, hook := st.hook }
+  { aborted := st.escapes, reply := st.reply.map canonReply, errors := st.errors, cost := st.cost,
+    closed := st.close || st.escapes, hook := st.hook }
 
 /-! ## Many items in flight -/
 
@@ -174,7 +176,7 @@ structure Item where
 structure Served where
   /-- the message-processing task is still running -/
   alive : Bool := true
-  /-- `close()` ran: the connection is closing / closed -/
+  /-- `close()` ran, or the connection was aborted: it is closing / closed -/
   closed : Bool := false
   /-- responses to single requests, in the order written: (item id, reply) -/
   replies : List (Nat × Reply) := []
@@ -207,7 +209,10 @@ def serveOne (v : Variant) (cfg : Cfg) (s : Served) (it : Item) : Served :=
   if !s.alive || s.closed then { s with lost := s.lost ++ [it.id] }
   else
     let st := throttled v cfg it.outcome it.kind
-    if st.escapes then { s with alive := false, lost := s.lost ++ [it.id] }
+    if st.escapes then
+      -- `task.result()` re-raises in `process_messages`; the transport protocol aborts the
+      -- connection of the dead session (F34)
+      { s with alive := false, closed := true, lost := s.lost ++ [it.id] }
     else record s it st
 
 /-- items complete in the order given (any permutation of the arrival order) -/
@@ -286,5 +291,71 @@ def schedule (tm : Timing) (tis : List TItem) : List (Nat × Item) :=
 
 def runTimed (v : Variant) (cfg : Cfg) (tm : Timing) (tis : List TItem) : Served :=
   serve v cfg ((schedule tm tis).map (·.2))
+
+/-! ## A slow peer: what is handed to the transport stays `drain` seconds in the send buffer
+
+A graceful close (reply-and-disconnect) flushes the buffer: the connection is lost only once it
+has drained, and until then the handlers still in flight go on running - their replies are
+dropped, but an exception escaping from one of them ends message processing and ABORTS the
+connection (F34; F25 for the `close()` that was waiting), which discards what is still buffered.
+`Wire.base` is exactly `serve`'s state (`wire_base`); the other fields say when its replies were
+handed over and when the connection was aborted. -/
+
+structure Wire where
+  base : Served := {}
+  /-- instants at which `base.replies` were handed to the transport, in the same order -/
+  sentAt : List Nat := []
+  /-- instant at which the batch response was handed to the transport -/
+  batchSentAt : Option Nat := none
+  /-- a graceful close is pending until this instant (the buffer has drained) -/
+  lostAt : Option Nat := none
+  abortedAt : Option Nat := none
+  deriving Repr, DecidableEq
+
+def lastSent (w : Wire) : Option Nat :=
+  match w.sentAt.getLast?, w.batchSentAt with
+  | some a, some b => some (max a b)
+  | some a, none => some a
+  | none, b => b
+
+/-- `total` = `batchCount` of the items, `drain` = seconds a write stays in the send buffer -/
+def wireOne (v : Variant) (cfg : Cfg) (total drain : Nat) (w : Wire) (ev : Nat × Item) : Wire :=
+  let (t, it) := ev
+  let st := throttled v cfg it.outcome it.kind
+  let base := serveOne v cfg w.base it
+  if w.abortedAt.isSome then { w with base }
+  else match w.lostAt with
+    | some l =>
+      -- closing, buffer not yet drained: the handler still runs if the connection is not lost
+      if t < l && st.escapes then { w with base, abortedAt := some t } else { w with base }
+    | none =>
+      if st.escapes then { w with base, abortedAt := some t }
+      else
+        let w1 : Wire :=
+          { w with base,
+                   sentAt := if it.batch then w.sentAt else w.sentAt ++ (replyList st it).map fun _ => t,
+                   batchSentAt := if it.batch && st.reply.isSome && base.batchParts.length == total
+                                  then some t else w.batchSentAt }
+        if st.close then
+          { w1 with lostAt := some (match lastSent w1 with
+                                    | some a => max t (a + drain)
+                                    | none => t) }
+        else w1
+
+def serveWire (v : Variant) (cfg : Cfg) (drain : Nat) (evs : List (Nat × Item)) : Wire :=
+  evs.foldl (wireOne v cfg (batchCount (evs.map (·.2))) drain) {}
+
+/-- the responses to single requests that reach the peer -/
+def deliveredReplies (drain : Nat) (w : Wire) : List (Nat × Reply) :=
+  match w.abortedAt with
+  | none => w.base.replies
+  | some T => ((w.base.replies.zip w.sentAt).filter fun p => p.2 + drain ≤ T).map (·.1)
+
+/-- the batch response, if it reaches the peer -/
+def deliveredBatch (drain : Nat) (items : List Item) (w : Wire) : Option (List (Nat × Reply)) :=
+  match w.abortedAt, w.batchSentAt with
+  | some T, some b => if b + drain ≤ T then batchResponse items w.base else none
+  | some _, none => none
+  | none, _ => batchResponse items w.base
 
 end Aiorpcx.C03
